@@ -390,13 +390,21 @@ func Solve(file string, opts SolverOpts, cover bool) (result, solver, output str
 		}
 		return result, solver, output
 	}
+	// stage 0: most obligations are small and decided at once by one back end
+	stage0 := false
+	if r0, out0 := runSolver(context.Background(), solvers[1], file, 1, opts.Seed); r0 == "unsat" {
+		result, solver, output = r0, solvers[1].name, out0
+		stage0 = true
+	}
 	// stage 1: the full query on all three back ends, short budget
 	short := 2
 	if opts.TimeoutS < short {
 		short = opts.TimeoutS
 	}
-	result, solver, output = race([]string{file}, 0, short)
-	if result != "unsat" && result != "sat" && result != "error" {
+	if !stage0 {
+		result, solver, output = race([]string{file}, 0, short)
+	}
+	if !stage0 && result != "unsat" && result != "sat" && result != "error" {
 		// stage 2: the full query again with the whole budget, raced against sound weakenings of it
 		// (prelude axioms dropped / quantified path facts dropped / both): fewer quantified facts often
 		// keep the back ends out of matching loops; unsat of a weakening proves the obligation.
